@@ -147,7 +147,10 @@ static inline void ubits_put(struct ubits *s, uint8_t nb, uint32_t value)
         return;
     }
 
-    s->bits <<= s->available;
+    if (s->available < 32)
+        s->bits <<= s->available;
+    else
+        s->bits = 0; /* empty cache: a shift by 32 would be undefined */
     s->bits |= value >> (nb - s->available);
     *s->buffer++ = s->bits >> 24;
     *s->buffer++ = (s->bits & 0xffffff) >> 16;
